@@ -96,7 +96,9 @@ def zero_evaluation_failure(searches):
     (a variable on a bound whose direction component is a rounding-level non-zero pointing outward)
     or the direction was not a descent direction. Whether that happens is decided by the last bit of
     one component of d (DESIGN 7.4), so runs that differ only there are not comparable."""
-    return any(t[2] is None and t[0] == t[1] for t in searches)
+    # (also: a search direction that is exactly zero - the Cauchy and subspace points coincide with x
+    # because every variable is blocked; one ulp on a bound decides that)
+    return any(t[2] is None and (t[0] == t[1] or t[3] == 0.0) for t in searches)
 
 
 def compare_restart(problem, cfg, blob, x_ref, maxiter, pseed, stats, n_pert=5, ref_act=None, rel_step_tol=None, ref_searches_before=None):
